@@ -13,6 +13,9 @@ FIXTURE = os.path.join(os.path.dirname(os.path.dirname(os.path.abspath(__file__)
 GLOBAL_STATE = {"sys.path", "sys.stdout", "sys.stderr", "sys.stdin", "sys.argv", "os.environ", "sys.modules"}
 
 
+LATER_RULES = ' Later rules: (R5.5) memoised functions reach no environment read; (R5.6) escaping closures mutate no enclosing mutable; (R5.7) adopts the C06 order rules (R6.2, R6.4, R6.5).'
+
+
 def check(prog: Program, tier: str) -> Result:
     res = Result(
         "C05",
@@ -32,6 +35,7 @@ def check(prog: Program, tier: str) -> Result:
             "(trace_origin reads the file system)."),
         rule_text="instances = mutation sites (sinks) reached by the abstract interpreter, one per (function, statement); non-trivial = the mutated value may alias a parameter or a cached object",
     )
+    res.explanation += LATER_RULES
     res.trusted_base = ["CPython ast", "sa/ownership.py abstract interpreter",
                         "hand-confirmed result shapes of core.walk, walk_wildcard, walk_sequence, filter_nodes, match_template, merge_matches, _group_nodes_in_scope (elements derive from their first argument)"]
     res.assumptions = ["ast.fix_missing_locations only fills absent position attributes: no change to parsed nodes, but a mutation of the position-less nodes of compiled templates (modelled)",
